@@ -145,8 +145,30 @@ def corpus(ctx):
     return items
 
 
+def watch_block_family(ctx):
+    """Outer block whose Watch opens a long-lived inner block while the outer block's own flow goes on to siblings, among them
+    another nested block: Block(Watch(Block(body, End block)), siblings..., End block).  Beyond the size bound of the plain
+    enumeration, so enumerated as a structured family."""
+    E = ("EB", ())
+    inner_bodies = [(("Wl", ()),), (("M", ()), ("Wl", ())), (("Wl", ()), ("M", ()))]
+    sib_block = ("K", (("M", ()), E))
+    alphabet = [("M", ()), ("W", ()), sib_block]
+    import itertools
+    out = []
+    for body in inner_bodies:
+        watch = ("Wa", (("K", body + (E,)),))
+        for n in range(1, 3 if ctx.quick else 4):
+            for sibs in itertools.product(alphabet, repeat=n):
+                if sib_block not in sibs:
+                    continue
+                f = (("K", (watch,) + tuple(sibs) + (E,)), ("M", ()))
+                for tr in ("from3", "from9"):
+                    out.append((f, tr))
+    return out
+
+
 def run(ctx):
-    items = corpus(ctx)
+    items = corpus(ctx) + watch_block_family(ctx)
     ctx.prove_deterministic(lambda it: check_item(it)[0], [items[5], items[len(items) // 2]], k=2)
     results = ctx.pmap(check_item, items)
     nested = 0
@@ -160,7 +182,8 @@ def run(ctx):
         states=len(items) * HORIZON, transitions=len(items) * HORIZON, traces_validated_against_impl=len(items),
         evaluations=len(items), distinct_nontrivial=nested,
         rule="every program with at least one Block up to the size bound x condition trajectory; non-trivial = at some tick two "
-             "or more blocks were active at once",
+             "or more blocks were active at once; plus the structured family Block(Watch(Block(..)), siblings incl. a nested "
+             "block, End block) in which a Watch-opened block is still active when the outer flow reaches a sibling block",
         samples=[pgen.render(items[3][0]), pgen.render(items[len(items) // 2][0]), pgen.render(items[-1][0])],
         exhaustive=True, horizon=HORIZON)
 
